@@ -3,7 +3,7 @@ From Coq Require Import List NArith ZArith String.
 From Tongo Require Import Lib.Bits Lib.Sx Harness.H06 Harness.H07 Harness.H01 Harness.H18
   Harness.H05 Harness.H13 Harness.H19 Harness.H12 Harness.H03 Harness.H04
   Harness.H11 Harness.H16 Harness.H17 Harness.H20 Harness.H08 Harness.H10
-  Harness.H07p Harness.H09 Harness.H14 Harness.H15 Harness.H02.
+  Harness.H07p Harness.H09 Harness.H14 Harness.H15 Harness.H02 Harness.H01h.
 Import ListNotations.
 Local Open Scope string_scope.
 
@@ -126,4 +126,6 @@ Definition run (name : string) (a : sx) : sx :=
   else if is "c16.htx" then H16.run_htx a
   else if is "c16.hmsg" then H16.run_hmsg a
   else if is "c05.hist" then H05.run_hist a
+  else if is "c16.lib" then H16.run_lib a
+  else if is "c01.hist" then H01h.run_hist a
   else sx_err "unknown case kind".
